@@ -1048,4 +1048,120 @@ Proof.
   constructor; [eapply InvA_ext; [| | | | |exact IA]; try reflexivity; try (ms; lia)|eapply InvV_ext'; [| | | |exact IV]; try reflexivity; try (ms; lia)|
                 eapply InvR_ext; [| | |exact IR]; reflexivity|exact IS].
 Qed.
+
+(* ---- opening a scan *)
+Lemma ver_cnt_app s l v : length (filter (fun sc => N.eqb (sc_ver sc) v && sc_holds sc) (ms_scans s ++ l)) =
+  ver_cnt s v + length (filter (fun sc => N.eqb (sc_ver sc) v && sc_holds sc) l).
+Proof. unfold ver_cnt. now rewrite filter_app, app_length. Qed.
+
+Lemma add_scan_V s sc v : InvV (fun w => ind (N.eqb w v)) s -> sc_ver sc = v -> sc_holds sc = true ->
+  (exists vo, In vo (ms_vers s) /\ v_id vo = v /\ xok (fun m => In m (sc_mems sc)) (fun f => In f (v_files vo)) (sc_x sc)) ->
+  InvV (fun _ => 0) (set_scans s (ms_scans s ++ [sc])).
+Proof.
+  intros I Hv Hh Hx. constructor; ms; try apply I.
+  - intros w Hw. pose proof (b_arc _ _ I w Hw) as Ha. cbn beta in Ha. unfold ver_cnt at 1. ms. rewrite ver_cnt_app.
+    cbn [filter]. rewrite Hv, Hh, andb_true_r. rewrite (N.eqb_sym v (v_id w)). destruct (N.eqb (v_id w) v); cbn [length ind] in *; lia.
+  - intros sc' Hsc. apply in_app_or in Hsc. destruct Hsc as [Hsc|[<-|[]]]; [now apply (b_sc _ _ I)|].
+    split; [exact Hh|]. destruct Hx as [vo [H1 [H2 H3]]]. exists vo. rewrite Hv. auto.
+Qed.
+
+Lemma open_A s mems sc : InvA s -> (forall m, In m mems -> m = ms_mem s \/ ms_imm s = Some m) -> sc_mems sc = mems ->
+  InvA (set_scans (set_mts s (map (fun y => Nat.iter (cnt (mt_id y) mems) mt_add_iter y) (ms_mts s))) (ms_scans s ++ [sc])).
+Proof.
+  intros I Hm Hsc.
+  assert (forall y k, let y' := Nat.iter k mt_add_iter y in mt_id y' = mt_id y) as Hid by (intros y k; apply iter_add_iter).
+  constructor; ms.
+  - intros y Hy. apply in_map_iff in Hy. destruct Hy as [y0 [<- Hy]]. rewrite Hid. now apply (a_fresh _ I).
+  - intros y Hy Hf. apply in_map_iff in Hy. destruct Hy as [y0 [<- Hy]].
+    destruct (iter_add_iter (cnt (mt_id y0) mems) y0) as [_ [E2 [E3 [E4 _]]]]. cbn zeta in *. rewrite E3 in Hf. rewrite E2, E4.
+    destruct (a_freed _ I y0 Hy Hf) as [H1 H2]. split; [exact H1|].
+    rewrite cnt_notin; [lia|]. intros Hin. pose proof (a_cur _ I y0 Hy) as Hc.
+    destruct (Hm _ Hin) as [H|H]; [specialize (Hc (or_introl H))|specialize (Hc (or_intror H))]; lia.
+  - intros y Hy. apply in_map_iff in Hy. destruct Hy as [y0 [<- Hy]].
+    destruct (iter_add_iter (cnt (mt_id y0) mems) y0) as [E1 [_ [_ [E4 _]]]]. cbn zeta in *. rewrite E1, E4.
+    rewrite mem_cnt_app. cbn [mem_cnt]. rewrite Hsc. pose proof (a_iters _ I y0 Hy). lia.
+  - intros y Hy Hc. apply in_map_iff in Hy. destruct Hy as [y0 [<- Hy]].
+    destruct (iter_add_iter (cnt (mt_id y0) mems) y0) as [E1 [E2 _]]. cbn zeta in *. rewrite E1 in Hc. rewrite E2. now apply (a_cur _ I).
+  - destruct (a_mem _ I) as [y [Hy Hym]]. exists (Nat.iter (cnt (mt_id y) mems) mt_add_iter y). split; [apply in_map_iff; eauto|now rewrite Hid].
+  - intros m Hmi. destruct (a_imm _ I m Hmi) as [[y [Hy Hym]] Hne]. split; [|exact Hne].
+    exists (Nat.iter (cnt (mt_id y) mems) mt_add_iter y). split; [apply in_map_iff; eauto|now rewrite Hid].
+  - assert (forall m, (exists y, In y (ms_mts s) /\ mt_id y = m) ->
+              exists y, In y (map (fun y => Nat.iter (cnt (mt_id y) mems) mt_add_iter y) (ms_mts s)) /\ mt_id y = m) as Hex.
+    { intros m [y [Hy Hym]]. exists (Nat.iter (cnt (mt_id y) mems) mt_add_iter y). split; [apply in_map_iff; eauto|now rewrite Hid]. }
+    intros sc' Hsc' m Hmm. apply Hex. apply in_app_or in Hsc'. destruct Hsc' as [Hsc'|[<-|[]]]; [now apply (a_sc _ I sc')|].
+    rewrite Hsc in Hmm. destruct (Hm m Hmm) as [->|H]; [apply (a_mem _ I)|apply (a_imm _ I m H)].
+Qed.
+
+Lemma existsb_false {A} (p : A -> bool) l : (forall a, In a l -> p a = false) -> existsb p l = false.
+Proof. induction l as [|a l IH]; [reflexivity|]. intros H. cbn [existsb]. rewrite H by (now left). apply IH. intros b Hb. apply H. now right. Qed.
+
+Lemma find_scan_none_notin s cid : find_scan s cid = None -> ~ In cid (map sc_id (ms_scans s)).
+Proof.
+  unfold find_scan. intros H Hin. apply in_map_iff in Hin. destruct Hin as [sc [Hid Hsc]].
+  pose proof (find_none _ _ H sc Hsc) as Hn. cbn beta in Hn. rewrite Hid, N.eqb_refl in Hn. discriminate.
+Qed.
+
+Lemma step_open s cid lo hi : Inv s -> Inv (fst (mstep c s (EOpen cid lo hi))) /\ safe_out (snd (mstep c s (EOpen cid lo hi))).
+Proof.
+  intros [IA IV IR IS]. cbn [mstep]. destruct (find_scan s cid) as [sc0|] eqn:Efs.
+  { cbn [fst snd]. split; [constructor; assumption|split; discriminate]. }
+  unfold do_open. cbv zeta.
+  set (mems := open_mems s).
+  assert (forall m, In m mems -> m = ms_mem s \/ ms_imm s = Some m) as Hmems.
+  { intros m Hm. unfold mems, open_mems in Hm. destruct Hm as [<-|Hm]; [now left|]. destruct (ms_imm s) as [i|]; [|destruct Hm].
+    destruct Hm as [<-|[]]. now right. }
+  set (s1 := take_snapshot s).
+  pose proof (arc_add_V _ s (ms_cur s) IV) as IV1. pose proof (arc_add_R s (ms_cur s) IR) as IR1.
+  fold (take_snapshot s) in IV1, IR1. fold s1 in IV1, IR1. cbn beta in IV1.
+  destruct (fold_upd_mt mt_add_iter (fun y => proj1 (iter_add_iter 1 y)) mems s1) as [Emts Es2]. cbn zeta in Emts, Es2.
+  set (s2 := fold_left (fun s m => upd_mt mt_add_iter m s) mems s1) in *.
+  assert (ms_mts s1 = ms_mts s) as Hm1 by reflexivity.
+  assert (ms_vers s2 = ms_vers s1 /\ ms_scans s2 = ms_scans s /\ ms_cur s2 = ms_cur s /\ ms_next s2 = ms_next s /\ ms_refs s2 = ms_refs s1 /\
+          ms_disk s2 = ms_disk s1 /\ ms_mem s2 = ms_mem s /\ ms_imm s2 = ms_imm s /\ ms_cache s2 = ms_cache s) as [E1 [E2 [E3 [E4 [E5 [E6 [E7 [E8 E9]]]]]]]]
+    by (rewrite Es2; repeat split).
+  (* no memtable it iterates is freed *)
+  assert (freed_any s2 mems = false) as Hfa.
+  { apply existsb_false. intros m Hm.
+    assert (exists y0, In y0 (ms_mts s) /\ mt_id y0 = m) as Hex by (destruct (Hmems m Hm) as [->|H]; [apply (a_mem _ IA)|apply (a_imm _ IA m H)]).
+    destruct (find_mt_ex s2 m) as [y Hy].
+    { destruct Hex as [y0 [Hy0 Hid0]]. exists (Nat.iter (cnt (mt_id y0) mems) mt_add_iter y0). split.
+      - rewrite Emts, Hm1. apply in_map_iff. eauto.
+      - rewrite <- Hid0. apply iter_add_iter. }
+    rewrite Hy. apply find_mt_in in Hy. destruct Hy as [Hy Hid]. rewrite Emts, Hm1 in Hy. apply in_map_iff in Hy.
+    destruct Hy as [y0 [<- Hy0]]. destruct (iter_add_iter (cnt (mt_id y0) mems) y0) as [F1 [_ [F3 _]]]. cbn zeta in *. rewrite F3.
+    rewrite F1 in Hid. destruct (mt_freed y0) eqn:Ef; [exfalso|reflexivity].
+    destruct (a_freed _ IA y0 Hy0 Ef) as [Hs _]. pose proof (a_cur _ IA y0 Hy0) as Hc.
+    destruct (Hmems m Hm) as [H|H]; [specialize (Hc (or_introl (eq_trans Hid H)))|rewrite <- Hid in H; specialize (Hc (or_intror H))]; lia. }
+  rewrite Hfa.
+  (* the version it is opened on *)
+  destruct (b_cur _ _ IV1) as [vo [Hvo Hvid]]. change (ms_cur s1) with (ms_cur s) in Hvid.
+  assert (cur_levels s2 = v_levels vo) as Hlv.
+  { unfold cur_levels. rewrite E3. rewrite (find_ver_nodup s2 (ms_cur s) vo); [reflexivity| | |exact Hvid]; rewrite E1; [apply (b_nodup _ _ IV1)|exact Hvo]. }
+  rewrite Hlv.
+  set (fuel := open_fuel s2). set (x := scan_new (look_of s2) fuel lo hi (ms_vis s) mems (v_levels vo)).
+  assert (xok (fun m => In m mems) (fun f => In f (v_files vo)) x) as Hx.
+  { apply xok_scan_new; [auto|]. intros f Hf. unfold v_files. now apply in_map. }
+  assert (InvR s2) as IR2 by (eapply InvR_ext; [| | |exact IR1]; assumption).
+  assert (forallb (openable s2) (opened_between (XM (mkM true [])) x) = true) as Hop.
+  { eapply forallb_openable; [exact IR2|rewrite E1; exact Hvo|]. intros f Hf. eapply (opened_between_ok _ _ _ x Hx f Hf). }
+  rewrite Hop. cbn [negb]. rewrite Hhv. cbn [fst snd]. split; [|split; discriminate].
+  set (sc := mkScan cid (ms_vis s) mems (ms_cur s) true x).
+  assert (forall s3, s3 = s2 \/ s3 = set_cache s2 (opened_between (XM (mkM true [])) x ++ ms_cache s2) ->
+            Inv (set_scans s3 (ms_scans s3 ++ [sc]))) as Hfin.
+  { intros s3 Hs3.
+    assert (ms_mts s3 = ms_mts s2 /\ ms_scans s3 = ms_scans s /\ ms_mem s3 = ms_mem s /\ ms_imm s3 = ms_imm s /\ ms_next s3 = ms_next s /\
+            ms_vers s3 = ms_vers s1 /\ ms_cur s3 = ms_cur s /\ ms_refs s3 = ms_refs s1 /\ ms_disk s3 = ms_disk s1)
+      as [G1 [G2 [G3 [G4 [G5 [G6 [G7 [G8 G9]]]]]]]] by (destruct Hs3 as [->| ->]; ms; repeat split; assumption).
+    constructor.
+    - pose proof (open_A s mems sc IA Hmems eq_refl) as HA.
+      eapply InvA_ext; [| | | | |exact HA]; ms; try reflexivity; try congruence; try (rewrite G5; lia).
+      rewrite G1, Emts, Hm1. reflexivity.
+    - assert (InvV (fun w => ind (N.eqb w (ms_cur s))) s3) as IV3.
+      { eapply InvV_extra_ext; [|eapply InvV_ext'; [| | | |exact IV1]]; try assumption; [intros w; cbn; reflexivity|].
+        change (ms_next s1) with (ms_next s). rewrite G5. lia. }
+      apply (add_scan_V s3 sc (ms_cur s) IV3 eq_refl eq_refl). exists vo. rewrite G6. auto.
+    - eapply InvR_ext; [| | |exact IR1]; ms; assumption.
+    - ms. rewrite G2, map_app. cbn [map sc_id sc]. apply NoDup_app_snoc; [exact IS|now apply find_scan_none_notin]. }
+  destruct (cf_cache c); apply Hfin; auto.
+Qed.
 End Steps.
